@@ -160,6 +160,9 @@ class BloomSubject(Subject):
     def gen_op(self, rng):
         if rng.chance(1, 12):
             return {"op": "burst", "k": rng.below(self.cfg["universe"]), "cnt": rng.choice((20, 60, 300))}
+        if rng.chance(1, 10):
+            # the caller computes the hash lists of several keys first and uses them afterwards
+            return {"op": "batch", "ks": [rng.below(self.cfg["universe"]) for _ in range(rng.between(2, 5))]}
         return {"op": "add", "k": rng.below(self.cfg["universe"])}
 
     def apply_op(self, st):
@@ -167,6 +170,13 @@ class BloomSubject(Subject):
             api_add(self.obj, seams.key_of(st["k"]), st.get("alt"), longer=self.longer(st["k"]))
             self.model[st["k"]] = 1
             self.total_adds += 1
+            return None
+        if st["op"] == "batch":
+            lists = [self.obj.hashes(seams.key_of(k)) for k in st["ks"]]
+            for k, hs in zip(st["ks"], lists):
+                self.obj.add_alt(hs)
+                self.model[k] = 1
+            self.total_adds += len(st["ks"])
             return None
         if st["op"] == "burst":  # many adds (same few keys) so that the stored count needs more than one byte
             for i in range(st["cnt"]):
